@@ -3,54 +3,55 @@ import RustCcModel.Proofs.TraceBound
 /-! `Counts` through every frame of the machine (running and unwinding). -/
 namespace RustCc
 open World
+variable {ex : Bool}
 
 /-- `Cc::drop`, last owner: the pointer in flight is consumed. -/
-theorem destroyLast_counts (c : Cfg) {w : World} {x : Id} (h : CountsH w [x]) (hx : x < w.next) : Counts (destroyLast c w x) := by
+theorem destroyLast_counts (c : Cfg) {w : World} {x : Id} (h : CountsH ex w [x]) (hx : x < w.next) : CountsG ex (destroyLast c w x) := by
   unfold destroyLast
-  have h1 : CountsH ((w.upd x fun o => { o with rc := o.rc - 1 }).removeFromList x) [] := (h.decr).removeFromList x
+  have h1 : CountsH ex ((w.upd x fun o => { o with rc := o.rc - 1 }).removeFromList x) [] := (h.decr).removeFromList x
   have h2 := CountsH.pushFrame (E := []) (.afterDropValue x ((w.upd x fun o => { o with rc := o.rc - 1 }).removeFromList x).dropping)
     h1 (by simpa [Frame.ids] using hx)
   simp only
   split
   · refine (CountsH.pushFrame (E := []) (.dropValue x) (CountsH.upd_same (CountsH.congr h2 ?_ ?_ ?_ ?_ ?_ ?_ ?_) x _ rfl rfl)
-      (by simpa [Frame.ids] using hx)).toCounts <;> rfl
+      (by simpa [Frame.ids] using hx)).toCounts0 <;> rfl
   · refine (CountsH.pushFrame (E := []) (.dropValue x) (CountsH.congr h2 ?_ ?_ ?_ ?_ ?_ ?_ ?_)
-      (by simpa [Frame.ids] using hx)).toCounts <;> rfl
+      (by simpa [Frame.ids] using hx)).toCounts0 <;> rfl
 
-theorem stepFrame_counts_dropCc (c : Cfg) (w : World) (x : Id) (rest : List Frame) (h : Counts w) (hs : w.stack = .dropCc x :: rest) :
-    Counts (stepFrame c { w with stack := rest } (.dropCc x)) := by
+theorem stepFrame_counts_dropCc (c : Cfg) (w : World) (x : Id) (rest : List Frame) (h : CountsG ex w) (hs : w.stack = .dropCc x :: rest) :
+    CountsG ex (stepFrame c { w with stack := rest } (.dropCc x)) := by
   obtain ⟨hp, hids⟩ := h.pop hs
-  have hp' : CountsH { w with stack := rest } [x] := hp
+  have hp' : CountsH ex { w with stack := rest } [x] := hp
   have hx : x < w.next := hp'.lt_of_mem (List.mem_cons_self ..)
   simp only [stepFrame]
   split
-  · exact hp'.decr.toCounts
+  · exact hp'.decr.toCounts0
   · split
     · split
       · have h1 := CountsH.pushFrame (E := []) (.dropCcAfterFin x w.finalizing) hp' (by simp [Frame.ids])
-        have h2 : CountsH (World.upd { (World.push { w with stack := rest } (.dropCcAfterFin x w.finalizing)) with finalizing := true } x
+        have h2 : CountsH ex (World.upd { (World.push { w with stack := rest } (.dropCcAfterFin x w.finalizing)) with finalizing := true } x
             fun o => { o with finalized := true }) [] := by
           refine CountsH.upd_same (CountsH.congr h1 ?_ ?_ ?_ ?_ ?_ ?_ ?_) x _ rfl rfl <;> rfl
-        exact (CountsH.pushFrame (E := []) (.callFin x) h2 (by simpa [Frame.ids] using hx)).toCounts
+        exact (CountsH.pushFrame (E := []) (.callFin x) h2 (by simpa [Frame.ids] using hx)).toCounts0
       · exact destroyLast_counts c hp' hx
-    · exact (hp'.decr.addToList x hx).toCounts
+    · exact (hp'.decr.addToList x hx).toCounts0
 
-theorem stepFrame_counts_dropCcAfterFin (c : Cfg) (w : World) (x : Id) (oldFin : Bool) (rest : List Frame) (h : Counts w)
+theorem stepFrame_counts_dropCcAfterFin (c : Cfg) (w : World) (x : Id) (oldFin : Bool) (rest : List Frame) (h : CountsG ex w)
     (hs : w.stack = .dropCcAfterFin x oldFin :: rest) :
-    Counts (stepFrame c { w with stack := rest } (.dropCcAfterFin x oldFin)) := by
+    CountsG ex (stepFrame c { w with stack := rest } (.dropCcAfterFin x oldFin)) := by
   obtain ⟨hp, hids⟩ := h.pop hs
-  have hp' : CountsH { w with stack := rest } [x] := hp
+  have hp' : CountsH ex { w with stack := rest } [x] := hp
   have hx : x < w.next := hp'.lt_of_mem (List.mem_cons_self ..)
   simp only [stepFrame]
   split
   · counts_congr (hp'.decr.addToList x hx)
   · refine destroyLast_counts c (CountsH.congr hp' ?_ ?_ ?_ ?_ ?_ ?_ ?_) hx <;> rfl
 
-theorem stepFrame_counts_afterDropValue (c : Cfg) (w : World) (x : Id) (oldDrop : Bool) (rest : List Frame) (h : Counts w)
+theorem stepFrame_counts_afterDropValue (c : Cfg) (w : World) (x : Id) (oldDrop : Bool) (rest : List Frame) (h : CountsG ex w)
     (hs : w.stack = .afterDropValue x oldDrop :: rest) :
-    Counts (stepFrame c { w with stack := rest } (.afterDropValue x oldDrop)) := by
+    CountsG ex (stepFrame c { w with stack := rest } (.afterDropValue x oldDrop)) := by
   obtain ⟨hp, hids⟩ := h.pop hs
-  have hp' : CountsH { w with stack := rest } [] := hp
+  have hp' : CountsH ex { w with stack := rest } [] := hp
   simp only [stepFrame]
   split
   · counts_congr (CountsH.pushFrame (E := []) (.afterDropValue x oldDrop) hp' hids)
@@ -63,54 +64,54 @@ theorem stepFrame_counts_afterDropValue (c : Cfg) (w : World) (x : Id) (oldDrop 
     · counts_congr ((hp'.dropMetadata x).freeBox_of_rc x (by simpa using hrc0))
     · counts_congr (hp'.freeBox_of_rc x hrc0)
 
-theorem stepFrame_counts_dropValue (c : Cfg) (w : World) (x : Id) (rest : List Frame) (h : Counts w)
-    (hs : w.stack = .dropValue x :: rest) : Counts (stepFrame c { w with stack := rest } (.dropValue x)) := by
+theorem stepFrame_counts_dropValue (c : Cfg) (w : World) (x : Id) (rest : List Frame) (h : CountsG ex w)
+    (hs : w.stack = .dropValue x :: rest) : CountsG ex (stepFrame c { w with stack := rest } (.dropValue x)) := by
   obtain ⟨hp, hids⟩ := h.pop hs
-  have hp' : CountsH { w with stack := rest } [] := hp
+  have hp' : CountsH ex { w with stack := rest } [] := hp
   have hx : x < w.next := hids x (by simp [Frame.ids])
   have h1 := hp'.upd_same x (fun o => { o with valLive := false }) rfl rfl
   simp only [stepFrame]
   split
   · have h2 := CountsH.pushFrame (E := []) (.dropFields x false) h1 (by simpa [Frame.ids] using hx)
     split
-    · refine ((CountsH.congr h2 ?_ ?_ ?_ ?_ ?_ ?_ ?_).emit _).raiseLogged.toCounts <;> rfl
+    · refine ((CountsH.congr h2 ?_ ?_ ?_ ?_ ?_ ?_ ?_).emit _).raiseLogged.toCounts0 <;> rfl
     · refine (CountsH.pushFrame (E := []) (.script _ (some x) none false) ((CountsH.congr h2 ?_ ?_ ?_ ?_ ?_ ?_ ?_).emit _)
-        (by simpa [Frame.ids] using hx)).toCounts <;> rfl
-  · exact (CountsH.pushFrame (E := []) (.dropActions x 0 false) h1 (by simpa [Frame.ids] using hx)).toCounts
+        (by simpa [Frame.ids] using hx)).toCounts0 <;> rfl
+  · exact (CountsH.pushFrame (E := []) (.dropActions x 0 false) h1 (by simpa [Frame.ids] using hx)).toCounts0
 
-theorem stepFrame_counts_dropMoved (c : Cfg) (w : World) (x : Id) (rest : List Frame) (h : Counts w)
-    (hs : w.stack = .dropMoved x :: rest) : Counts (stepFrame c { w with stack := rest } (.dropMoved x)) := by
+theorem stepFrame_counts_dropMoved (c : Cfg) (w : World) (x : Id) (rest : List Frame) (h : CountsG ex w)
+    (hs : w.stack = .dropMoved x :: rest) : CountsG ex (stepFrame c { w with stack := rest } (.dropMoved x)) := by
   obtain ⟨hp, hids⟩ := h.pop hs
-  have hp' : CountsH { w with stack := rest } [] := hp
+  have hp' : CountsH ex { w with stack := rest } [] := hp
   simp only [stepFrame]
-  exact (CountsH.pushFrame (E := []) (.dropFields x false) (hp'.emit _) (by simpa [Frame.ids] using hids)).toCounts
+  exact (CountsH.pushFrame (E := []) (.dropFields x false) (hp'.emit _) (by simpa [Frame.ids] using hids)).toCounts0
 
-theorem stepFrame_counts_dropFields (c : Cfg) (w : World) (x : Id) (unw : Bool) (rest : List Frame) (h : Counts w)
-    (hs : w.stack = .dropFields x unw :: rest) : Counts (stepFrame c { w with stack := rest } (.dropFields x unw)) := by
+theorem stepFrame_counts_dropFields (c : Cfg) (w : World) (x : Id) (unw : Bool) (rest : List Frame) (h : CountsG ex w)
+    (hs : w.stack = .dropFields x unw :: rest) : CountsG ex (stepFrame c { w with stack := rest } (.dropFields x unw)) := by
   obtain ⟨hp, hids⟩ := h.pop hs
-  have hp' : CountsH { w with stack := rest } [] := hp
+  have hp' : CountsH ex { w with stack := rest } [] := hp
   have hx : x < w.next := hids x (by simp [Frame.ids])
   simp only [stepFrame]
   split
   · rename_i y o' htf
     obtain ⟨hc, hrc, hbl⟩ := takeField_cc htf
-    have h1 : CountsH (World.upd { w with stack := rest } x fun _ => o') ([y] ++ []) :=
+    have h1 : CountsH ex (World.upd { w with stack := rest } x fun _ => o') ([y] ++ []) :=
       CountsH.updFields x (fun _ => o') [] [y] (by simpa using hp') hx (by intro z; simpa using hc z) hrc hbl
     have h2 := CountsH.pushFrame (E := [y]) (.dropFields x unw) (by simpa [Frame.holds] using h1) (by simpa [Frame.ids] using hx)
-    exact (CountsH.pushFrame (E := []) (.dropCc y) (by simpa [Frame.holds] using h2) (by simp [Frame.ids])).toCounts
+    exact (CountsH.pushFrame (E := []) (.dropCc y) (by simpa [Frame.holds] using h2) (by simp [Frame.ids])).toCounts0
   · rename_i y o' htf
     obtain ⟨hf, hrc, hbl⟩ := takeField_weak htf
-    have h1 : CountsH (World.upd { w with stack := rest } x fun _ => o') [] :=
+    have h1 : CountsH ex (World.upd { w with stack := rest } x fun _ => o') [] :=
       hp'.upd_same x (fun _ => o') hf hrc
-    exact ((CountsH.pushFrame (E := []) (.dropFields x unw) h1 (by simpa [Frame.ids] using hx)).weakDrop _).toCounts
+    exact ((CountsH.pushFrame (E := []) (.dropFields x unw) h1 (by simpa [Frame.ids] using hx)).weakDrop _).toCounts0
   · split
     · counts_congr hp'
-    · exact hp'.toCounts
+    · exact hp'.toCounts0
 
-theorem stepFrame_counts_dropActions (c : Cfg) (w : World) (m : Id) (i : Nat) (unw : Bool) (rest : List Frame) (h : Counts w)
-    (hs : w.stack = .dropActions m i unw :: rest) : Counts (stepFrame c { w with stack := rest } (.dropActions m i unw)) := by
+theorem stepFrame_counts_dropActions (c : Cfg) (w : World) (m : Id) (i : Nat) (unw : Bool) (rest : List Frame) (h : CountsG ex w)
+    (hs : w.stack = .dropActions m i unw :: rest) : CountsG ex (stepFrame c { w with stack := rest } (.dropActions m i unw)) := by
   obtain ⟨hp, hids⟩ := h.pop hs
-  have hp' : CountsH { w with stack := rest } [] := hp
+  have hp' : CountsH ex { w with stack := rest } [] := hp
   have hm : m < w.next := hids m (by simp [Frame.ids])
   simp only [stepFrame]
   split
@@ -118,7 +119,7 @@ theorem stepFrame_counts_dropActions (c : Cfg) (w : World) (m : Id) (i : Nat) (u
     split
     · rename_i a ha
       have hi := getD_lt ha
-      have h1 : CountsH (World.upd (World.push { w with stack := rest } (.dropActions m (i + 1) unw)) m
+      have h1 : CountsH ex (World.upd (World.push { w with stack := rest } (.dropActions m (i + 1) unw)) m
           fun o => { o with aslots := o.aslots.set i none }) (a.cap.toList ++ []) := by
         have hm' : m < (World.push { w with stack := rest } (.dropActions m (i + 1) unw)).next := hm
         apply CountsH.updFields m _ [] a.cap.toList (by simpa using h0) hm'
@@ -133,102 +134,102 @@ theorem stepFrame_counts_dropActions (c : Cfg) (w : World) (m : Id) (i : Nat) (u
           omega
         · rfl
         · rfl
-      have h2 : CountsH ((World.upd (World.push { w with stack := rest } (.dropActions m (i + 1) unw)) m
+      have h2 : CountsH ex ((World.upd (World.push { w with stack := rest } (.dropActions m (i + 1) unw)) m
           fun o => { o with aslots := o.aslots.set i none }).push (.actionEnd a.cap false)) [] := by
         apply CountsH.pushFrame (E := [])
         · cases hc : a.cap <;> simpa [Frame.holds, hc] using h1
         · cases hc : a.cap <;> simp [Frame.ids]
       split
-      · refine (((h2.congr ?_ ?_ ?_ ?_ ?_ ?_ ?_).emit _).raiseLogged).toCounts <;> rfl
-      · refine (((h2.congr ?_ ?_ ?_ ?_ ?_ ?_ ?_).emit _).pushPlain _ rfl rfl).toCounts <;> rfl
-    · exact h0.toCounts
+      · refine (((h2.congr ?_ ?_ ?_ ?_ ?_ ?_ ?_).emit _).raiseLogged).toCounts0 <;> rfl
+      · refine (((h2.congr ?_ ?_ ?_ ?_ ?_ ?_ ?_).emit _).pushPlain _ rfl rfl).toCounts0 <;> rfl
+    · exact h0.toCounts0
   · split
     · counts_congr hp'
-    · exact hp'.toCounts
+    · exact hp'.toCounts0
 
-theorem stepFrame_counts_actionEnd (c : Cfg) (w : World) (cap : Option Id) (unw : Bool) (rest : List Frame) (h : Counts w)
-    (hs : w.stack = .actionEnd cap unw :: rest) : Counts (stepFrame c { w with stack := rest } (.actionEnd cap unw)) := by
+theorem stepFrame_counts_actionEnd (c : Cfg) (w : World) (cap : Option Id) (unw : Bool) (rest : List Frame) (h : CountsG ex w)
+    (hs : w.stack = .actionEnd cap unw :: rest) : CountsG ex (stepFrame c { w with stack := rest } (.actionEnd cap unw)) := by
   obtain ⟨hp, hids⟩ := h.pop hs
   cases cap with
   | some y =>
-    have hp' : CountsH { w with stack := rest } [y] := hp
+    have hp' : CountsH ex { w with stack := rest } [y] := hp
     simp only [stepFrame]
     have h1 := CountsH.pushFrame (E := [y]) (.actionEnd none unw) (by simpa [Frame.holds] using hp') (by simp [Frame.ids])
-    exact (CountsH.pushFrame (E := []) (.dropCc y) (by simpa [Frame.holds] using h1) (by simp [Frame.ids])).toCounts
+    exact (CountsH.pushFrame (E := []) (.dropCc y) (by simpa [Frame.holds] using h1) (by simp [Frame.ids])).toCounts0
   | none =>
-    have hp' : CountsH { w with stack := rest } [] := hp
+    have hp' : CountsH ex { w with stack := rest } [] := hp
     simp only [stepFrame]
     split
     · counts_congr hp'
-    · exact hp'.toCounts
+    · exact hp'.toCounts0
 
-theorem stepFrame_counts_callFin (c : Cfg) (w : World) (x : Id) (rest : List Frame) (h : Counts w)
-    (hs : w.stack = .callFin x :: rest) : Counts (stepFrame c { w with stack := rest } (.callFin x)) := by
+theorem stepFrame_counts_callFin (c : Cfg) (w : World) (x : Id) (rest : List Frame) (h : CountsG ex w)
+    (hs : w.stack = .callFin x :: rest) : CountsG ex (stepFrame c { w with stack := rest } (.callFin x)) := by
   obtain ⟨hp, hids⟩ := h.pop hs
-  have hp' : CountsH { w with stack := rest } [] := hp
+  have hp' : CountsH ex { w with stack := rest } [] := hp
   have hx : x < w.next := hids x (by simp [Frame.ids])
   simp only [stepFrame]
   split
-  · exact hp'.toCounts
+  · exact hp'.toCounts0
   · split
-    · refine ((CountsH.congr hp' ?_ ?_ ?_ ?_ ?_ ?_ ?_).emit _).raiseLogged.toCounts <;> rfl
+    · refine ((CountsH.congr hp' ?_ ?_ ?_ ?_ ?_ ?_ ?_).emit _).raiseLogged.toCounts0 <;> rfl
     · refine (CountsH.pushFrame (E := []) (.script _ (some x) none false) ((CountsH.congr hp' ?_ ?_ ?_ ?_ ?_ ?_ ?_).emit _)
-        (by simpa [Frame.ids] using hx)).toCounts <;> rfl
+        (by simpa [Frame.ids] using hx)).toCounts0 <;> rfl
 
-theorem stepFrame_counts_collectLoop (c : Cfg) (w : World) (n : Nat) (oldFin oldDrop : Bool) (rest : List Frame) (h : Counts w)
+theorem stepFrame_counts_collectLoop (c : Cfg) (w : World) (n : Nat) (oldFin oldDrop : Bool) (rest : List Frame) (h : CountsG ex w)
     (hs : w.stack = .collectLoop n oldFin oldDrop :: rest) :
-    Counts (stepFrame c { w with stack := rest } (.collectLoop n oldFin oldDrop)) := by
+    CountsG ex (stepFrame c { w with stack := rest } (.collectLoop n oldFin oldDrop)) := by
   obtain ⟨hp, hids⟩ := h.pop hs
-  have hp' : CountsH { w with stack := rest } [] := hp
+  have hp' : CountsH ex { w with stack := rest } [] := hp
   simp only [stepFrame]
   repeat' split
   all_goals first
     | counts_congr hp'
-    | exact ((hp'.pushPlain (.collectLoop (n + 1) oldFin oldDrop) rfl rfl).pushPlain .collectPass rfl rfl).toCounts
+    | exact ((hp'.pushPlain (.collectLoop (n + 1) oldFin oldDrop) rfl rfl).pushPlain .collectPass rfl rfl).toCounts0
 
-theorem stepFrame_counts_dropMany (c : Cfg) (w : World) (x : Id) (n : Nat) (rest : List Frame) (h : Counts w)
-    (hs : w.stack = .dropMany x n :: rest) : Counts (stepFrame c { w with stack := rest } (.dropMany x n)) := by
+theorem stepFrame_counts_dropMany (c : Cfg) (w : World) (x : Id) (n : Nat) (rest : List Frame) (h : CountsG ex w)
+    (hs : w.stack = .dropMany x n :: rest) : CountsG ex (stepFrame c { w with stack := rest } (.dropMany x n)) := by
   obtain ⟨hp, hids⟩ := h.pop hs
   cases n with
-  | zero => simp only [stepFrame]; exact (hp.forget (E' := []) (fun _ => Nat.zero_le _)).toCounts
+  | zero => simp only [stepFrame]; exact (hp.of_count (E' := []) (fun _ => by simp [Frame.holds])).toCounts0
   | succ n =>
-    have hp' : CountsH { w with stack := rest } (x :: (List.replicate n x ++ [])) := by
+    have hp' : CountsH ex { w with stack := rest } (x :: (List.replicate n x ++ [])) := by
       simpa [Frame.holds, List.replicate_succ] using hp
     simp only [stepFrame]
     have h1 := CountsH.pushFrame (E := [x]) (.dropMany x n)
       (hp'.of_count (by intro z; simp [Frame.holds, List.count_cons, List.count_append])) (by simp [Frame.ids])
-    exact (CountsH.pushFrame (E := []) (.dropCc x) (by simpa [Frame.holds] using h1) (by simp [Frame.ids])).toCounts
+    exact (CountsH.pushFrame (E := []) (.dropCc x) (by simpa [Frame.holds] using h1) (by simp [Frame.ids])).toCounts0
 
-theorem stepFrame_counts_cleanEnd (c : Cfg) (w : World) (m : Id) (byUs unw : Bool) (rest : List Frame) (h : Counts w)
-    (hs : w.stack = .cleanEnd m byUs unw :: rest) : Counts (stepFrame c { w with stack := rest } (.cleanEnd m byUs unw)) := by
+theorem stepFrame_counts_cleanEnd (c : Cfg) (w : World) (m : Id) (byUs unw : Bool) (rest : List Frame) (h : CountsG ex w)
+    (hs : w.stack = .cleanEnd m byUs unw :: rest) : CountsG ex (stepFrame c { w with stack := rest } (.cleanEnd m byUs unw)) := by
   obtain ⟨hp, hids⟩ := h.pop hs
-  have hp' : CountsH { w with stack := rest } [m] := hp
+  have hp' : CountsH ex { w with stack := rest } [m] := hp
   simp only [stepFrame]
   split
   · have h0 := hp'.upd_same m (fun o => { o with borrowed := false }) rfl rfl
     have h1 := CountsH.pushFrame (E := [m]) (.actionEnd none unw) (by simpa [Frame.holds] using h0) (by simp [Frame.ids])
-    exact (CountsH.pushFrame (E := []) (.dropCc m) (by simpa [Frame.holds] using h1) (by simp [Frame.ids])).toCounts
+    exact (CountsH.pushFrame (E := []) (.dropCc m) (by simpa [Frame.holds] using h1) (by simp [Frame.ids])).toCounts0
   · have h1 := CountsH.pushFrame (E := [m]) (.actionEnd none unw) (by simpa [Frame.holds] using hp') (by simp [Frame.ids])
-    exact (CountsH.pushFrame (E := []) (.dropCc m) (by simpa [Frame.holds] using h1) (by simp [Frame.ids])).toCounts
+    exact (CountsH.pushFrame (E := []) (.dropCc m) (by simpa [Frame.holds] using h1) (by simp [Frame.ids])).toCounts0
 
-theorem startDealloc_counts (c : Cfg) {w : World} (N : List Id) (h : CountsH w []) (hN : ∀ i ∈ N, i < w.next) :
-    Counts (startDealloc c w N) := by
+theorem startDealloc_counts (c : Cfg) {w : World} (N : List Id) (h : CountsH ex w []) (hN : ∀ i ∈ N, i < w.next) :
+    CountsG ex (startDealloc c w N) := by
   unfold startDealloc
   have h1 := CountsH.pushFrame (E := []) (.deallocDrop N N w.dropping) h
     (by intro i hi; simp only [Frame.ids, List.mem_append] at hi; rcases hi with hi | hi <;> exact hN i hi)
-  have h2 : CountsH { (w.push (.deallocDrop N N w.dropping)) with dropping := true } [] := by
+  have h2 : CountsH ex { (w.push (.deallocDrop N N w.dropping)) with dropping := true } [] := by
     refine CountsH.congr h1 ?_ ?_ ?_ ?_ ?_ ?_ ?_ <;> rfl
   have h3 := h2.updAll_same (fun o => { o with doomed := true }) (fun _ => rfl) (fun _ => rfl) (fun _ => rfl) N
   simp only
   split
-  · exact (h3.updAll_same (fun o => { o with dropped := true }) (fun _ => rfl) (fun _ => rfl) (fun _ => rfl) N).toCounts
-  · exact h3.toCounts
+  · exact (h3.updAll_same (fun o => { o with dropped := true }) (fun _ => rfl) (fun _ => rfl) (fun _ => rfl) N).toCounts0
+  · exact h3.toCounts0
 
-theorem stepFrame_counts_finalizePass (c : Cfg) (w : World) (N r : List Id) (hasFin oldFin : Bool) (rest : List Frame) (h : Counts w)
+theorem stepFrame_counts_finalizePass (c : Cfg) (w : World) (N r : List Id) (hasFin oldFin : Bool) (rest : List Frame) (h : CountsG ex w)
     (hs : w.stack = .finalizePass N r hasFin oldFin :: rest) :
-    Counts (stepFrame c { w with stack := rest } (.finalizePass N r hasFin oldFin)) := by
+    CountsG ex (stepFrame c { w with stack := rest } (.finalizePass N r hasFin oldFin)) := by
   obtain ⟨hp, hids⟩ := h.pop hs
-  have hp' : CountsH { w with stack := rest } [] := hp
+  have hp' : CountsH ex { w with stack := rest } [] := hp
   have hN : ∀ i ∈ N, i < w.next := fun i hi => hids i (by simp [Frame.ids, hi])
   cases r with
   | cons x r =>
@@ -242,11 +243,11 @@ theorem stepFrame_counts_finalizePass (c : Cfg) (w : World) (N r : List Id) (has
     split
     · have h1 := CountsH.pushFrame (E := []) (.finalizePass N r true oldFin) hp' (by simpa [Frame.ids] using hr)
       have h2 := h1.upd_same x (fun o => { o with finalized := true }) rfl rfl
-      exact (CountsH.pushFrame (E := []) (.callFin x) h2 (by simpa [Frame.ids] using hx)).toCounts
-    · exact (CountsH.pushFrame (E := []) (.finalizePass N r hasFin oldFin) hp' (by simpa [Frame.ids] using hr)).toCounts
+      exact (CountsH.pushFrame (E := []) (.callFin x) h2 (by simpa [Frame.ids] using hx)).toCounts0
+    · exact (CountsH.pushFrame (E := []) (.finalizePass N r hasFin oldFin) hp' (by simpa [Frame.ids] using hr)).toCounts0
   | nil =>
     simp only [stepFrame]
-    have h0 : CountsH { ({ w with stack := rest } : World) with finalizing := oldFin } [] := by
+    have h0 : CountsH ex { ({ w with stack := rest } : World) with finalizing := oldFin } [] := by
       refine CountsH.congr hp' ?_ ?_ ?_ ?_ ?_ ?_ ?_ <;> rfl
     split
     · exact startDealloc_counts c N h0 hN
@@ -259,13 +260,13 @@ theorem stepFrame_counts_finalizePass (c : Cfg) (w : World) (N r : List Id) (has
         intro x hx; rw [hnext]
         rcases List.mem_append.1 hx with hx | hx
         · exact hN x hx
-        · exact h.pcb x hx)).toCounts
+        · exact h.pcb x hx)).toCounts0
 
-theorem stepFrame_counts_deallocDrop (c : Cfg) (w : World) (N r : List Id) (oldDrop : Bool) (rest : List Frame) (h : Counts w)
+theorem stepFrame_counts_deallocDrop (c : Cfg) (w : World) (N r : List Id) (oldDrop : Bool) (rest : List Frame) (h : CountsG ex w)
     (hs : w.stack = .deallocDrop N r oldDrop :: rest) :
-    Counts (stepFrame c { w with stack := rest } (.deallocDrop N r oldDrop)) := by
+    CountsG ex (stepFrame c { w with stack := rest } (.deallocDrop N r oldDrop)) := by
   obtain ⟨hp, hids⟩ := h.pop hs
-  have hp' : CountsH { w with stack := rest } [] := hp
+  have hp' : CountsH ex { w with stack := rest } [] := hp
   cases r with
   | cons x r =>
     have hx : x < w.next := hids x (by simp [Frame.ids])
@@ -278,8 +279,8 @@ theorem stepFrame_counts_deallocDrop (c : Cfg) (w : World) (N r : List Id) (oldD
     have h1 := CountsH.pushFrame (E := []) (.deallocDrop N r oldDrop) hp' (by simpa [Frame.ids] using hr)
     split
     · have h2 := h1.upd_same x (fun o => { o with dropped := true }) rfl rfl
-      exact (CountsH.pushFrame (E := []) (.dropValue x) h2 (by simpa [Frame.ids] using hx)).toCounts
-    · exact (CountsH.pushFrame (E := []) (.dropValue x) h1 (by simpa [Frame.ids] using hx)).toCounts
+      exact (CountsH.pushFrame (E := []) (.dropValue x) h2 (by simpa [Frame.ids] using hx)).toCounts0
+    · exact (CountsH.pushFrame (E := []) (.dropValue x) h1 (by simpa [Frame.ids] using hx)).toCounts0
   | nil =>
     simp only [stepFrame]
     split
@@ -292,97 +293,101 @@ theorem stepFrame_counts_deallocDrop (c : Cfg) (w : World) (N r : List Id) (oldD
         · exact absurd (List.any_eq_true.2 ⟨x, hx, by simpa using e⟩) hany
       counts_congr (CountsH.freeAll c N hp' hz)
 
-theorem stepFrame_counts_newAlloc (c : Cfg) (w : World) (k : Nat) (sp : NewSpec) (rest : List Frame) (h : Counts w)
-    (hs : w.stack = .newAlloc k sp :: rest) : Counts (stepFrame c { w with stack := rest } (.newAlloc k sp)) := by
+theorem stepFrame_counts_newAlloc (c : Cfg) (w : World) (k : Nat) (sp : NewSpec) (rest : List Frame) (h : CountsG ex w)
+    (hs : w.stack = .newAlloc k sp :: rest) (hkx : ex = true → k < w.H.length) : CountsG ex (stepFrame c { w with stack := rest } (.newAlloc k sp)) := by
   obtain ⟨hp, hids⟩ := h.pop hs
-  have hp' : CountsH { w with stack := rest } [] := hp
+  have hp' : CountsH ex { w with stack := rest } [] := hp
   simp only [stepFrame]
   have ho : fieldsOf (newObj c { w with stack := rest } sp) = [] := by
     simp [fieldsOf, newObj, optIds]
   have h1 := hp'.alloc (newObj c { w with stack := rest } sp) (w.allocBytes + (newObj c { w with stack := rest } sp).size) ho
-  have h2 : CountsH _ [w.next] := (h1.emit (.alloc w.next (newObj c { w with stack := rest } sp).size)).of_count
+  have h2 : CountsH ex _ [w.next] := (h1.emit (.alloc w.next (newObj c { w with stack := rest } sp).size)).of_count
     (by intro z; simp [newObj])
-  exact (h2.putH k).toCounts
+  exact (h2.putH k (by intro hex; simpa using hkx hex)).toCounts0
 
 theorem stepFrame_counts_newCyclicAlloc (c : Cfg) (w : World) (k : Nat) (sp : NewSpec) (body : Nat) (selfw : Option Nat)
-    (rest : List Frame) (h : Counts w) (hs : w.stack = .newCyclicAlloc k sp body selfw :: rest) :
-    Counts (stepFrame c { w with stack := rest } (.newCyclicAlloc k sp body selfw)) := by
+    (rest : List Frame) (h : CountsG ex w) (hs : w.stack = .newCyclicAlloc k sp body selfw :: rest) :
+    CountsG ex (stepFrame c { w with stack := rest } (.newCyclicAlloc k sp body selfw)) := by
   obtain ⟨hp, hids⟩ := h.pop hs
-  have hp' : CountsH { w with stack := rest } [] := hp
+  have hp' : CountsH ex { w with stack := rest } [] := hp
   simp only [stepFrame]
   have ho : fieldsOf ({ newObj c { w with stack := rest } sp with rc := 0, valLive := false, hasMeta := true } : Obj) = [] := by
     simp [fieldsOf, newObj, optIds]
   have h1 := hp'.alloc { newObj c { w with stack := rest } sp with rc := 0, valLive := false, hasMeta := true }
     (w.allocBytes + (newObj c { w with stack := rest } sp).size) ho
-  have h2 : CountsH _ [] := (h1.emit (.alloc w.next (newObj c { w with stack := rest } sp).size)).of_count (by intro z; simp)
+  have h2 : CountsH ex _ [] := (h1.emit (.alloc w.next (newObj c { w with stack := rest } sp).size)).of_count (by intro z; simp)
   have h3 := h2.updMeta w.next (fun _ => { weak := 1, accessible := true, live := true }) (Or.inl (Nat.lt_succ_self _))
   have h4 := CountsH.pushFrame (E := []) (.newCyclicEnd k w.next sp selfw) h3 (by simp [Frame.ids])
   split
-  · refine ((CountsH.congr h4 ?_ ?_ ?_ ?_ ?_ ?_ ?_)).raiseLogged.toCounts <;> rfl
-  · refine (CountsH.pushPlain (CountsH.congr h4 ?_ ?_ ?_ ?_ ?_ ?_ ?_) _ rfl rfl).toCounts <;> rfl
+  · refine ((CountsH.congr h4 ?_ ?_ ?_ ?_ ?_ ?_ ?_)).raiseLogged.toCounts0 <;> rfl
+  · refine (CountsH.pushPlain (CountsH.congr h4 ?_ ?_ ?_ ?_ ?_ ?_ ?_) _ rfl rfl).toCounts0 <;> rfl
 
 theorem stepFrame_counts_newCyclicEnd (c : Cfg) (w : World) (k : Nat) (id : Id) (sp : NewSpec) (selfw : Option Nat)
-    (rest : List Frame) (h : Counts w) (hs : w.stack = .newCyclicEnd k id sp selfw :: rest) :
-    Counts (stepFrame c { w with stack := rest } (.newCyclicEnd k id sp selfw)) := by
+    (rest : List Frame) (h : CountsG ex w) (hs : w.stack = .newCyclicEnd k id sp selfw :: rest)
+    (hkx : ex = true → k < w.H.length) :
+    CountsG ex (stepFrame c { w with stack := rest } (.newCyclicEnd k id sp selfw)) := by
   obtain ⟨hp, hids⟩ := h.pop hs
-  have hp' : CountsH { w with stack := rest } [] := hp
+  have hp' : CountsH ex { w with stack := rest } [] := hp
   have hid : id < w.next := hids id (by simp [Frame.ids])
-  have hA : CountsH (World.putH (World.weakDrop (World.upd { w with stack := rest } id fun o => { o with valLive := true, rc := o.rc + 1 }) (.to id)) k id) [] :=
-    ((hp'.incrRcF id 1 (fun o => { o with valLive := true, rc := o.rc + 1 }) hid rfl rfl rfl).weakDrop (.to id)).putH k
-  have hB : ∀ j, CountsH (World.putH (World.weakDrop (World.upd (World.upd (World.updMeta { w with stack := rest } id fun m => { m with weak := m.weak + 1 }) id
+  have hA : CountsH ex (World.putH (World.weakDrop (World.upd { w with stack := rest } id fun o => { o with valLive := true, rc := o.rc + 1 }) (.to id)) k id) [] :=
+    ((hp'.incrRcF id 1 (fun o => { o with valLive := true, rc := o.rc + 1 }) hid rfl rfl rfl).weakDrop (.to id)).putH k (by intro hex; simpa using hkx hex)
+  have hB : ∀ j, CountsH ex (World.putH (World.weakDrop (World.upd (World.upd (World.updMeta { w with stack := rest } id fun m => { m with weak := m.weak + 1 }) id
       fun o => { o with wslots := o.wslots.set j (some id) }) id fun o => { o with valLive := true, rc := o.rc + 1 }) (.to id)) k id) [] := by
     intro j
     have h1 := hp'.updMeta id (fun m => { m with weak := m.weak + 1 }) (Or.inl hid)
     have h2 := h1.upd_same id (fun o => { o with wslots := o.wslots.set j (some id) }) rfl rfl
-    exact ((h2.incrRcF id 1 (fun o => { o with valLive := true, rc := o.rc + 1 }) hid rfl rfl rfl).weakDrop (.to id)).putH k
+    exact ((h2.incrRcF id 1 (fun o => { o with valLive := true, rc := o.rc + 1 }) hid rfl rfl rfl).weakDrop (.to id)).putH k (by intro hex; simpa using hkx hex)
   cases selfw with
   | none =>
     simp only [stepFrame]
     repeat' split
     all_goals first
-      | exact (CountsH.pushFrame (E := []) (.newCyclicEnd k id sp none) hp' hids).raise.toCounts
-      | exact hA.toCounts
-      | exact (hB _).toCounts
+      | exact (CountsH.pushFrame (E := []) (.newCyclicEnd k id sp none) hp' hids).raise.toCounts0
+      | exact hA.toCounts0
+      | exact (hB _).toCounts0
   | some j =>
     simp only [stepFrame]
     repeat' split
     all_goals first
-      | exact (CountsH.pushFrame (E := []) (.newCyclicEnd k id sp (some j)) hp' hids).raise.toCounts
-      | exact hA.toCounts
-      | exact (hB _).toCounts
+      | exact (CountsH.pushFrame (E := []) (.newCyclicEnd k id sp (some j)) hp' hids).raise.toCounts0
+      | exact hA.toCounts0
+      | exact (hB _).toCounts0
 
-theorem stepFrame_counts_mapAlloc (c : Cfg) (w : World) (owner : Id) (rest : List Frame) (h : Counts w)
-    (hs : w.stack = .mapAlloc owner :: rest) : Counts (stepFrame c { w with stack := rest } (.mapAlloc owner)) := by
+theorem stepFrame_counts_mapAlloc (c : Cfg) (w : World) (owner : Id) (rest : List Frame) (h : CountsG ex w)
+    (hs : w.stack = .mapAlloc owner :: rest) : CountsG ex (stepFrame c { w with stack := rest } (.mapAlloc owner)) := by
   obtain ⟨hp, hids⟩ := h.pop hs
-  have hp' : CountsH { w with stack := rest } [] := hp
+  have hp' : CountsH ex { w with stack := rest } [] := hp
   have hown : owner < w.next := hids owner (by simp [Frame.ids])
   simp only [stepFrame]
   have h1 := hp'.alloc ({ rc := 1, tc := c.tcInit, boxLive := true, valLive := true, kind := .map, size := c.mapSize, finalized := c.fin && w.finalizing } : Obj) (w.allocBytes + c.mapSize) (by simp [fieldsOf, optIds])
-  have h2 : CountsH _ [w.next] := (h1.emit (.alloc w.next c.mapSize)).of_count (by intro z; simp)
+  have h2 : CountsH ex _ [w.next] := (h1.emit (.alloc w.next c.mapSize)).of_count (by intro z; simp)
   split
   · rename_i hnone
     have hne : owner ≠ w.next := Nat.ne_of_lt hown
     have hown' : (w.heap owner).cmap = none := by simpa [emit, Heap.set, hne] using hnone
     refine (CountsH.updFields_le owner (fun o => { o with cmap := some w.next }) [w.next] (by simpa using h2)
-      (Nat.lt_succ_of_lt hown) ?_ rfl rfl).toCounts
-    intro x
-    simp [emit, Heap.set, hne, fieldsOf, hown', List.count_append, List.count_cons]
-    omega
-  · exact (CountsH.pushFrame (E := []) (.dropCc w.next) (by simpa [Frame.holds] using h2) (by simp [Frame.ids])).toCounts
+      (Nat.lt_succ_of_lt hown) ?_ ?_ rfl rfl).toCounts0
+    · intro x
+      simp [emit, Heap.set, hne, fieldsOf, hown', List.count_append, List.count_cons]
+      omega
+    · intro _ x
+      simp [emit, Heap.set, hne, fieldsOf, hown', List.count_append, List.count_cons]
+      omega
+  · exact (CountsH.pushFrame (E := []) (.dropCc w.next) (by simpa [Frame.holds] using h2) (by simp [Frame.ids])).toCounts0
 
 theorem stepFrame_counts_script (c : Cfg) (w : World) (ops : List Op) (self wc : Option Id) (top : Bool) (rest : List Frame)
-    (h : Counts w) (hs : w.stack = .script ops self wc top :: rest) :
-    Counts (stepFrame c { w with stack := rest } (.script ops self wc top)) := by
+    (h : CountsG ex w) (hs : w.stack = .script ops self wc top :: rest) :
+    CountsG ex (stepFrame c { w with stack := rest } (.script ops self wc top)) := by
   obtain ⟨hp, hids⟩ := h.pop hs
-  have hp' : CountsH { w with stack := rest } [] := by cases self <;> exact hp
+  have hp' : CountsH ex { w with stack := rest } [] := by cases self <;> exact hp
   have hself : ∀ s, self = some s → s < w.next := by
     intro s hs; subst hs; exact hids s (by simp [Frame.ids])
   cases ops with
-  | nil => simp only [stepFrame]; exact hp'.toCounts
+  | nil => simp only [stepFrame]; exact hp'.toCounts0
   | cons op ops =>
     simp only [stepFrame]
     have h1 := (CountsH.pushFrame (E := []) (.script ops self wc top) (by cases self <;> simpa [Frame.holds] using hp')
-      (by cases self <;> simpa [Frame.ids] using hself)).toCounts
+      (by cases self <;> simpa [Frame.ids] using hself)).toCounts0
     have h2 := execOp_counts c _ self wc op h1 hself
     split
     · exact h2
@@ -398,53 +403,80 @@ theorem actIds_set_le (l : List (Option Action)) (i : Nat) (a : Action) (x : Id)
   | inr hge => rw [List.set_eq_of_length_le hge]; omega
 
 theorem regInsert_tail (c : Cfg) {w1 : World} (m : Id) (k aid idx : Nat) (om' : Obj) (cap : Option Id)
-    (h : CountsH w1 cap.toList) (hm : m < w1.next)
+    (h : CountsH ex w1 cap.toList) (hm : m < w1.next)
     (hF : ∀ x, (fieldsOf om').count x ≤ (fieldsOf (w1.heap m)).count x + cap.toList.count x)
+    (hFe : ex = true → ∀ x, (fieldsOf om').count x = (fieldsOf (w1.heap m)).count x + cap.toList.count x)
     (hrc : om'.rc = (w1.heap m).rc) (hbl : om'.boxLive = (w1.heap m).boxLive) :
-    Counts (if (((w1.upd m fun _ => om').initMeta m).metas m).weak ≥ c.weakMax then ((w1.upd m fun _ => om').initMeta m).raise
+    CountsG ex (if (((w1.upd m fun _ => om').initMeta m).metas m).weak ≥ c.weakMax then ((w1.upd m fun _ => om').initMeta m).raise
       else (((((w1.upd m fun _ => om').initMeta m).updMeta m fun mm => { mm with weak := mm.weak + 1 }).removeFromList m).setK k
         (some (m, idx, aid)))) := by
-  have h1 : CountsH (w1.upd m fun _ => om') [] :=
-    CountsH.updFields_le m (fun _ => om') cap.toList (by simpa using h) hm hF hrc hbl
+  have h1 : CountsH ex (w1.upd m fun _ => om') [] :=
+    CountsH.updFields_le m (fun _ => om') cap.toList (by simpa using h) hm hF hFe hrc hbl
   have h2 := h1.initMeta m hm
   split
-  · exact h2.raise.toCounts
+  · exact h2.raise.toCounts0
   · counts_congr ((h2.updMeta m (fun mm => { mm with weak := mm.weak + 1 }) (Or.inr (fun _ hm => hm))).removeFromList m)
 
-theorem stepFrame_counts_regInsert (c : Cfg) (w : World) (owner : Id) (script k : Nat) (cap : Option Id) (rest : List Frame)
-    (h : Counts w) (hs : w.stack = .regInsert owner script k cap :: rest) :
-    Counts (stepFrame c { w with stack := rest } (.regInsert owner script k cap)) := by
+theorem stepFrame_counts_regInsert_core (c : Cfg) (w : World) (owner : Id) (script k : Nat) (cap : Option Id) (rest : List Frame)
+    (h : CountsG ex w) (hs : w.stack = .regInsert owner script k cap :: rest)
+    (hfree : ex = true → ∀ m i fr, (w.heap m).afree = i :: fr → i < (w.heap m).aslots.length ∧ (w.heap m).aslots.getD i none = none)
+    (hok : ex = true → (stepFrame c { w with stack := rest } (.regInsert owner script k cap)).mode ≠ .stuck) :
+    CountsG ex (stepFrame c { w with stack := rest } (.regInsert owner script k cap)) := by
   obtain ⟨hp, hids⟩ := h.pop hs
-  have hp' : CountsH { w with stack := rest } cap.toList := by rw [regInsert_holds] at hp; exact hp
+  have hp' : CountsH ex { w with stack := rest } cap.toList := by rw [regInsert_holds] at hp; exact hp
   have hown : owner < w.next := hids owner (by simp [Frame.ids])
-  simp only [stepFrame]
+  simp only [stepFrame] at hok ⊢
   split
-  · counts_congr (hp'.forget (E' := []) (fun _ => Nat.zero_le _))
+  · rename_i hnone
+    cases ex with
+    | true => simp [hnone] at hok
+    | false => counts_congr (hp'.forget (E' := []) (fun _ => Nat.zero_le _))
   · rename_i m hm
     have hmlt : m < w.next := field_lt h hown (by simp [fieldsOf, hm])
     split
     · have hh : (Frame.actionEnd cap false).holds = cap.toList := by cases cap <;> rfl
-      exact (CountsH.pushFrame (E := []) (.actionEnd cap false) (by rw [hh]; simpa using hp') (by cases cap <;> simp [Frame.ids])).raise.toCounts
-    · have hw1 : CountsH { ({ w with stack := rest } : World) with nextAid := w.nextAid + 1 } cap.toList := by
+      exact (CountsH.pushFrame (E := []) (.actionEnd cap false) (by rw [hh]; simpa using hp') (by cases cap <;> simp [Frame.ids])).raise.toCounts0
+    · have hw1 : CountsH ex { ({ w with stack := rest } : World) with nextAid := w.nextAid + 1 } cap.toList := by
         refine CountsH.congr hp' ?_ ?_ ?_ ?_ ?_ ?_ ?_ <;> rfl
-      cases hfree : (w.heap m).afree with
+      cases hfr : (w.heap m).afree with
       | nil =>
         simp only []
-        refine regInsert_tail c m k w.nextAid (w.heap m).aslots.length _ cap hw1 hmlt ?_ rfl rfl
-        intro x
-        show (fieldsOf { (w.heap m) with aslots := (w.heap m).aslots ++ [some { aid := w.nextAid, script := script, cap := cap }] }).count x ≤ (fieldsOf (w.heap m)).count x + _
-        simp [fieldsOf, List.count_append, actIds]
-        omega
+        refine regInsert_tail c m k w.nextAid (w.heap m).aslots.length _ cap hw1 hmlt ?_ ?_ rfl rfl
+        · intro x
+          show (fieldsOf { (w.heap m) with aslots := (w.heap m).aslots ++ [some { aid := w.nextAid, script := script, cap := cap }] }).count x ≤ (fieldsOf (w.heap m)).count x + _
+          simp [fieldsOf, List.count_append, actIds]
+          omega
+        · intro _ x
+          show (fieldsOf { (w.heap m) with aslots := (w.heap m).aslots ++ [some { aid := w.nextAid, script := script, cap := cap }] }).count x = (fieldsOf (w.heap m)).count x + _
+          simp [fieldsOf, List.count_append, actIds]
+          omega
       | cons i fr =>
         simp only []
-        refine regInsert_tail c m k w.nextAid i _ cap hw1 hmlt ?_ rfl rfl
-        intro x
-        have := actIds_set_le (w.heap m).aslots i { aid := w.nextAid, script := script, cap := cap } x
-        show (fieldsOf { (w.heap m) with aslots := (w.heap m).aslots.set i (some { aid := w.nextAid, script := script, cap := cap }), afree := fr }).count x ≤ (fieldsOf (w.heap m)).count x + _
-        simp only [fieldsOf, List.count_append] at this ⊢
-        omega
+        refine regInsert_tail c m k w.nextAid i _ cap hw1 hmlt ?_ ?_ rfl rfl
+        · intro x
+          have := actIds_set_le (w.heap m).aslots i { aid := w.nextAid, script := script, cap := cap } x
+          show (fieldsOf { (w.heap m) with aslots := (w.heap m).aslots.set i (some { aid := w.nextAid, script := script, cap := cap }), afree := fr }).count x ≤ (fieldsOf (w.heap m)).count x + _
+          simp only [fieldsOf, List.count_append] at this ⊢
+          omega
+        · intro hex x
+          obtain ⟨hi, hnone⟩ := hfree hex m i fr hfr
+          have := actIds_set_count (w.heap m).aslots i (some { aid := w.nextAid, script := script, cap := cap }) x hi
+          have hold : ((w.heap m).aslots[i]?.getD none) = none := by rw [← List.getD_eq_getElem?_getD]; exact hnone
+          rw [hold] at this
+          show (fieldsOf { (w.heap m) with aslots := (w.heap m).aslots.set i (some { aid := w.nextAid, script := script, cap := cap }), afree := fr }).count x = (fieldsOf (w.heap m)).count x + _
+          simp only [fieldsOf, List.count_append, actIds] at this ⊢
+          simp at this
+          omega
 
-theorem CountsH.fromT1 {w : World} {E : List Id} (h : CountsH w E) (hh : T1.Heap) : CountsH (RustCc.fromT1 w hh) E :=
+theorem stepFrame_counts_regInsert (c : Cfg) (w : World) (owner : Id) (script k : Nat) (cap : Option Id) (rest : List Frame)
+    (h : CountsG ex w) (hs : w.stack = .regInsert owner script k cap :: rest)
+    (hfree : ex = true → ∀ m i fr, (w.heap m).afree = i :: fr → i < (w.heap m).aslots.length ∧ (w.heap m).aslots.getD i none = none) :
+    CountsG (ex && decide ((stepFrame c { w with stack := rest } (.regInsert owner script k cap)).mode ≠ .stuck))
+      (stepFrame c { w with stack := rest } (.regInsert owner script k cap)) :=
+  CountsG.flag (fun hns => stepFrame_counts_regInsert_core c w owner script k cap rest h hs hfree (fun _ => hns))
+    (stepFrame_counts_regInsert_core c w owner script k cap rest h.weaken hs (fun hex => nomatch hex) (fun hex => nomatch hex))
+
+theorem CountsH.fromT1 {w : World} {E : List Id} (h : CountsH ex w E) (hh : T1.Heap) : CountsH ex (RustCc.fromT1 w hh) E :=
   h.noptr rfl rfl rfl rfl (fun _ => rfl) (fun _ => rfl) (fun _ hx => hx) (fun _ hx => hx)
 
 theorem toT1_edges_sub (w : World) (x y : Id) (hy : y ∈ (toT1 w x).edges) : y ∈ fieldsOf (w.heap x) := by
@@ -455,46 +487,46 @@ theorem toT1_edges_sub (w : World) (x y : Id) (hy : y ∈ (toT1 w x).edges) : y 
     exact Or.inl (Or.inl (Or.inl hy))
   · cases hy
 
-theorem stepFrame_counts_collectPass (c : Cfg) (w : World) (rest : List Frame) (h : Counts w)
-    (hs : w.stack = .collectPass :: rest) : Counts (stepFrame c { w with stack := rest } .collectPass) := by
+theorem stepFrame_counts_collectPass (c : Cfg) (w : World) (rest : List Frame) (h : CountsG ex w)
+    (hs : w.stack = .collectPass :: rest) : CountsG ex (stepFrame c { w with stack := rest } .collectPass) := by
   obtain ⟨hp, hids⟩ := h.pop hs
-  have hp' : CountsH { w with stack := rest } [] := hp
+  have hp' : CountsH ex { w with stack := rest } [] := hp
   have hb := tracePhasesF_bound (P := fun x => x < w.next) (fun i => decide ((w.heap i).kind = .node)) w.next
     (toT1 { w with stack := rest }) w.pc w.fTrace
     (fun x hx y hy => field_lt h hx (toT1_edges_sub _ x y hy)) h.pcb
   simp only [stepFrame]
   generalize tracePhasesF (fun i => decide ((w.heap i).kind = .node)) w.next (toT1 { w with stack := rest }) w.pc w.fTrace = r at hb ⊢
   obtain ⟨res, fault⟩ := r
-  have hw1 : CountsH { ({ w with stack := rest } : World) with fTrace := fault } [] := by
+  have hw1 : CountsH ex { ({ w with stack := rest } : World) with fTrace := fault } [] := by
     refine CountsH.congr hp' ?_ ?_ ?_ ?_ ?_ ?_ ?_ <;> rfl
   cases res with
   | panicked hh pcRest log =>
     simp only at hb ⊢
     have h2 := (hw1.fromT1 hh).setPc pcRest (fun x hx => h.pcb x (hb x hx))
-    refine (CountsH.raiseLogged (CountsH.congr h2 ?_ ?_ ?_ ?_ ?_ ?_ ?_)).toCounts <;> rfl
+    refine (CountsH.raiseLogged (CountsH.congr h2 ?_ ?_ ?_ ?_ ?_ ?_ ?_)).toCounts0 <;> rfl
   | done s =>
     simp only at hb ⊢
     have h2 := (hw1.fromT1 s.ts.h).setPc [] (fun x hx => by cases hx)
     split
-    · refine (CountsH.congr h2 ?_ ?_ ?_ ?_ ?_ ?_ ?_).toCounts <;> rfl
+    · refine (CountsH.congr h2 ?_ ?_ ?_ ?_ ?_ ?_ ?_).toCounts0 <;> rfl
     · split
       · refine (CountsH.pushFrame (E := []) (.finalizePass s.ts.nonroot s.ts.nonroot false w.finalizing) (CountsH.congr h2 ?_ ?_ ?_ ?_ ?_ ?_ ?_)
-          (by intro i hi; simp only [Frame.ids, List.mem_append] at hi; rcases hi with hi | hi <;> exact hb i hi)).toCounts <;> rfl
+          (by intro i hi; simp only [Frame.ids, List.mem_append] at hi; rcases hi with hi | hi <;> exact hb i hi)).toCounts0 <;> rfl
       · refine startDealloc_counts c s.ts.nonroot (CountsH.congr h2 ?_ ?_ ?_ ?_ ?_ ?_ ?_) hb <;> rfl
 
 
 /-- `hcyc`: the box under construction in `new_cyclic` has count 0 (part of the machine invariant `Inv`): the
 `PanicGuard` releases it without looking at the count. -/
-theorem unwindFrame_counts (c : Cfg) (w : World) (f : Frame) (rest : List Frame) (h : Counts w) (hs : w.stack = f :: rest)
+theorem unwindFrame_counts (c : Cfg) (w : World) (f : Frame) (rest : List Frame) (h : CountsG ex w) (hs : w.stack = f :: rest)
     (hcyc : ∀ k id sp sw, f = .newCyclicEnd k id sp sw → (w.heap id).rc = 0) :
-    Counts (unwindFrame c { w with stack := rest } f) := by
-  obtain ⟨hp, hids⟩ := h.pop hs
-  have h0 : CountsH { w with stack := rest } [] := hp.forget (by simp)
-  have hk := h0.toCounts
+    CountsG false (unwindFrame c { w with stack := rest } f) := by
+  obtain ⟨hp, hids⟩ := h.weaken.pop hs
+  have h0 : CountsH false { w with stack := rest } [] := hp.forget (by simp)
+  have hk := h0.toCounts0
   cases f with
   | dropValue x =>
     simp only [unwindFrame]
-    exact (h0.upd_same x id rfl rfl).toCounts
+    exact (h0.upd_same x id rfl rfl).toCounts0
   | dropFields x unw =>
     cases unw <;> simp only [unwindFrame]
     · counts_congr (CountsH.pushFrame (E := []) (.dropFields x true) h0 hids)
@@ -521,7 +553,7 @@ theorem unwindFrame_counts (c : Cfg) (w : World) (f : Frame) (rest : List Frame)
   | newCyclicEnd k id sp selfw =>
     simp only [unwindFrame]
     have hrc0 := hcyc k id sp selfw rfl
-    exact (((h0.dropMetadata id).freeBox_of_rc id (by simpa using hrc0)).weakDrop _).toCounts
+    exact (((h0.dropMetadata id).freeBox_of_rc id (by simpa using hrc0)).weakDrop _).toCounts0
   | regInsert owner script k cap =>
     cases cap with
     | none => simp only [unwindFrame]; exact hk
